@@ -514,6 +514,10 @@ class Project(MessageHandler):
                     task[("scheduled", scIdx)] = True
                 # else: milestone with no dates - let it be scheduled by the main loop
 
+        # Containers whose children were all placed by the pre-pass above are complete now: tasks
+        # waiting for such a container must not wait for some other task to be placed first
+        self._updateContainerTaskStatus(scIdx)
+
         # Propagate ALAP mode through dependency chains
         # If task B depends on task A, and B is ALAP with fixed end,
         # then A should also be ALAP (scheduled as late as possible)
